@@ -282,8 +282,9 @@ func (b *simBody) Read(p []byte) (int, error) {
 	if n > len(b.data)-b.pos {
 		n = len(b.data) - b.pos
 	}
-	if b.maxRead > 0 && n > b.maxRead {
-		n = 1 + b.w.st.Choice(b.maxRead)
+	if m := max(b.maxRead, len(b.data)/256); b.maxRead > 0 && n > m {
+		// short reads; a long body is still delivered in a few hundred reads
+		n = 1 + b.w.st.Choice(m)
 	}
 	if b.failAt >= 0 && b.pos+n > b.failAt {
 		n = b.failAt - b.pos
